@@ -37,8 +37,12 @@ def _targets():
     brm_t = Prog("brm_t", ("a",), (Site("v", "normal", ("1.0", "0.6")),), "v")
     brm_f = Prog("brm_f", ("a",), (Site("v", "normal", ("-1.0", "1.2")),), "v")
     mixture = Prog("mixture", ("a",), (Site("z", "flip", ("0.35",)), CondCall("c", brm_t, brm_f, "z", ("a",))), "c")
+    # a hard constraint: the observation has bounded support around the latent, so proposals can
+    # land where the target density is 0 (they must be rejected, never NaN-accepted)
+    bounded = Prog("bounded", ("a",), (Site("x", "normal", ("a", "1.0")), Site("y", "uniform", ("x - 1.0", "x + 1.0"))), "y")
     f32 = np.float32
     T = {
+        "bounded": (bounded, (f32(0.3),), [("y",)], [(("str", "x"), ("mh", "mala"))]),
         "disc": (F.disc, (f32(0.3),), [("c",)], [(("str", "x"), ("mh",)), (("str", "y"), ("mh",)), (("or", ("str", "x"), ("str", "y")), ("mh",))]),
         "chain": (F.chain, (f32(0.3),), [("y",)], [(("str", "x"), ("mh", "mala", "hmc"))]),
         "chain_free": (F.chain, (f32(-1.2),), [], [(("all",), ("mala", "hmc")), (("str", "y"), ("mh", "mala"))]),
@@ -234,6 +238,22 @@ def work(item, tier, seed):
                     alpha_impl = 1.0  # accepted even at u ~ 1
                 elif changed:
                     alpha_impl = 0.0  # accepted at u = 1e-30 but rejected from 1e-6 on: 0 < alpha < 1e-6
+            # a proposal that is rejected even at u = 1e-30 (alpha == 0: the proposed state has density
+            # 0) never shows in the output: rebuild it from the proposal draws themselves
+            if kern == "mh" and not changed and len(pieces) == 1:
+                prop_vals = []
+                for ev in prop_events:
+                    v = np.asarray(ev.value)
+                    prop_vals.append(v)
+                sel_sites = [p for p in paths if p in den]
+                if len(prop_vals) == len(sel_sites) and all(np.shape(v) == np.shape(x_flat[p]) for v, p in zip(prop_vals, sel_sites)):
+                    cand = dict(x_flat)
+                    for v, p in zip(prop_vals, sel_sites):
+                        cand[p] = v.astype(np.asarray(x_flat[p]).dtype)
+                    if not gfi.tree_bits_equal(R.unflatten(cand), R.unflatten(x_flat)):
+                        y_flat = cand
+                        alpha_impl = 0.0
+                        res.notes["proposals_rejected_at_u_1e-30"] = res.notes.get("proposals_rejected_at_u_1e-30", 0) + 1
             # ---- reference
             try:
                 alpha_ref, y_expected, extra = _reference(kern, cfg, prog, args, paths, den, x_flat, x_ref, x_plp, y_flat, prop_events, res, sig, det)
